@@ -141,6 +141,8 @@ func c02Scenarios(c *vlib.Ctx) []c02Scenario {
 			c02Scenario{Transition: "START_ACTIVITY", Hosts: 2, Tasks: []c02Task{{Name: "victim", Critical: true, Mode: "direct", Host: 1, Outcome: "exec-lost-before"}}},
 			// a silent non-critical target next to a critical one that acknowledges (a multi-target command)
 			c02Scenario{Transition: "START_ACTIVITY", Hosts: 2, Tasks: []c02Task{{Name: "victim", Critical: false, Mode: "basic", Host: 1, Outcome: "silent"}, {Name: "bc", Critical: true, Mode: "direct", Host: 2, Outcome: "ok"}}},
+			// Mesos reports the task unreachable (its agent is partitioned away) 80 ms before the request
+			c02Scenario{Transition: "START_ACTIVITY", Hosts: 2, Tasks: []c02Task{{Name: "victim", Critical: true, Mode: "direct", Host: 1, Outcome: "reported-unreachable"}, {Name: "bc", Critical: true, Mode: "direct", Host: 2, Outcome: "ok"}}},
 			// the task itself dies (TASK_FAILED) 80 ms before the request
 			c02Scenario{Transition: "START_ACTIVITY", Hosts: 2, Tasks: []c02Task{{Name: "victim", Critical: true, Mode: "fairmq", Host: 1, Outcome: "task-failed-before"}, {Name: "bc", Critical: true, Mode: "direct", Host: 2, Outcome: "ok"}}},
 			c02Scenario{Transition: "STOP_ACTIVITY", Hosts: 2, Tasks: []c02Task{{Name: "victim", Critical: true, Mode: "direct", Host: 1, Outcome: "task-failed-before"}, {Name: "bn", Critical: false, Mode: "basic", Host: 2, Outcome: "ok"}}},
@@ -157,6 +159,9 @@ func c02Scenarios(c *vlib.Ctx) []c02Scenario {
 					}
 					if shape == 2 {
 						oc = "task-failed-before"
+					}
+					if shape == 1 && tr != "START_ACTIVITY" {
+						oc = "reported-unreachable"
 					}
 					sc.Tasks = append(sc.Tasks, c02Task{Name: "victim", Critical: vcrit, Mode: c02Modes[shape%3], Host: 1, Outcome: oc})
 					if shape == 1 || shape == 3 {
@@ -198,7 +203,7 @@ func c02Scenarios(c *vlib.Ctx) []c02Scenario {
 func (sc c02Scenario) long() bool {
 	for _, t := range sc.Tasks {
 		switch t.Outcome {
-		case "silent", "die", "undeliverable", "exec-lost-before", "exec-lost-racing", "task-failed-before":
+		case "silent", "die", "undeliverable", "exec-lost-before", "exec-lost-racing", "task-failed-before", "reported-unreachable":
 			return true
 		}
 	}
@@ -402,7 +407,7 @@ func c02Run(c *vlib.Ctx, idx int, sc c02Scenario) {
 
 	long := false
 	for _, t := range sc.Tasks {
-		if t.Outcome == "silent" || t.Outcome == "die" || t.Outcome == "undeliverable" || t.Outcome == "exec-lost-before" || t.Outcome == "exec-lost-racing" || t.Outcome == "task-failed-before" {
+		if t.Outcome == "silent" || t.Outcome == "die" || t.Outcome == "undeliverable" || t.Outcome == "exec-lost-before" || t.Outcome == "exec-lost-racing" || t.Outcome == "task-failed-before" || t.Outcome == "reported-unreachable" {
 			long = true
 		}
 	}
@@ -592,6 +597,11 @@ func c02Run(c *vlib.Ctx, idx int, sc c02Scenario) {
 				s.Master.ExecutorFailure(lt.AgentID, lt.ExecutorID, false)
 				c.Count("executors_lost_before_request", 1)
 			}
+			if tt, ok := roleOf(&lt); ok && tt.Outcome == "reported-unreachable" {
+				s.Master.Note("TASK-UNREACHABLE", map[string]interface{}{"task": lt.RolePath})
+				s.Master.TaskStatus(lt.ID, "TASK_UNREACHABLE", "agent partitioned (scripted)")
+				c.Count("tasks_reported_unreachable_before_request", 1)
+			}
 			if tt, ok := roleOf(&lt); ok && tt.Outcome == "task-failed-before" {
 				s.Master.Note("TASK-FAILED", map[string]interface{}{"task": lt.RolePath})
 				s.Master.TaskStatus(lt.ID, "TASK_FAILED", "process died (scripted)")
@@ -599,7 +609,7 @@ func c02Run(c *vlib.Ctx, idx int, sc c02Scenario) {
 			}
 		}
 		for _, t := range sc.Tasks {
-			if t.Outcome == "exec-lost-before" || t.Outcome == "exec-lost-racing" || t.Outcome == "task-failed-before" {
+			if t.Outcome == "exec-lost-before" || t.Outcome == "exec-lost-racing" || t.Outcome == "task-failed-before" || t.Outcome == "reported-unreachable" {
 				time.Sleep(80 * time.Millisecond) // inside the environment watcher's 500 ms grace period
 				break
 			}
